@@ -149,6 +149,10 @@ G_Term(cls, m, n, b, seed, depth, mode) ==
             Op_AddedDiag(IF d1 <= 0 THEN G_Term(G_Pick(IF mode = 1 THEN <<"Dense", "Toeplitz", "Chol">> ELSE G_NonDiagLeaf, seed), n, n, b1, seed + 3, 0, mode)
                          ELSE sub(n, n, b1, seed + 3),
                          IF mode = 1 THEN G_PosDiagTerm(n, b2, seed + 5) ELSE Op_Diag(G_Int(b2 \o <<n>>, seed + 5)))
+       \* variants whose diagonal part is an IdentityLinearOperator (its matmul / inverse return their argument: aliasing hazard)
+       [] cls = "LRRAddedDiagI" -> Op_LRRAddedDiag(Op_LowRankRoot(G_Small(b1 \o <<n, T_Max(1, n - 1)>>, seed + 3)), Op_Identity(n, b1))
+       [] cls = "AddedDiagI" -> Op_AddedDiag(G_Term("Dense", n, n, b1, seed + 3, 0, mode), Op_Identity(n, b1))
+       [] cls = "SumI" -> Op_Sum(<<G_Term("Dense", n, n, b1, seed + 3, 0, mode), Op_Identity(n, b1)>>)
        [] cls = "LRRAddedDiag" ->
             Op_LRRAddedDiag(Op_LowRankRoot(G_Small(b1 \o <<n, T_Max(1, n - 1)>>, seed + 3)),
                             IF mode = 1 THEN Op_Diag(G_Pos(b1 \o <<n>>, seed + 5)) ELSE Op_Diag(G_Int(b1 \o <<n>>, seed + 5)))
@@ -221,10 +225,10 @@ G_AllClasses == <<"Dense", "User", "Diag", "ConstDiag", "Identity", "Zero", "Toe
                   "LowRankRoot", "Kron", "Kron3", "KronTri", "KronDiag", "KronAddedDiag", "SumKron", "AddedDiag",
                   "LRRAddedDiag", "Sum", "Sum3", "PsdSum", "Matmul", "Mul", "ConstMul", "BlockDiag", "BlockInter",
                   "SumBatch", "BatchRepeat", "Cat", "Interp", "Masked", "Perm", "TransPerm", "Kernel">>
-G_SquareOnly == {"Diag", "ConstDiag", "Identity", "Toeplitz", "Tri", "Chol", "CholU", "Root", "LowRankRoot", "Kron3", "KronTri",
+G_SquareOnly == {"LRRAddedDiagI", "AddedDiagI", "SumI", "Diag", "ConstDiag", "Identity", "Toeplitz", "Tri", "Chol", "CholU", "Root", "LowRankRoot", "Kron3", "KronTri",
                  "KronDiag", "KronAddedDiag", "SumKron", "AddedDiag", "LRRAddedDiag", "PsdSum", "Mul", "BlockDiag",
                  "BlockInter", "Perm", "TransPerm"}
-G_LeafClasses == {"Dense", "User", "Diag", "ConstDiag", "Identity", "Zero", "Toeplitz", "Chol", "CholU", "SumZ", "LowRankRoot", "KronTri",
+G_LeafClasses == {"LRRAddedDiagI", "AddedDiagI", "SumI", "Dense", "User", "Diag", "ConstDiag", "Identity", "Zero", "Toeplitz", "Chol", "CholU", "SumZ", "LowRankRoot", "KronTri",
                   "KronDiag", "SumKron", "LRRAddedDiag", "Perm", "TransPerm", "Kernel"}
 \* classes that only exist for PSD arguments
 G_PsdOnly == {"Chol", "CholU", "PsdSum", "Mul"}
